@@ -355,4 +355,73 @@ def replay_l85(cfg, m):
 R.add('L8.5', l85, [{}], replay=replay_l85, desc='ack/ack_bits name exactly the received datagrams among the newest 33',
       expect=['acked <=> received among the newest 33 datagrams'])
 
+
+
+# ------------------------------------------------------------------ L8.6 the datagram gate agrees with the window
+def l86():
+    """_recv_datagram on a genuine datagram at any offset up to the window edge, from an arbitrary window:
+    accepted exactly when it was not received before (older than the window is C04's concern)"""
+    from . import proto
+    e = E()
+    clock = proto.clock_at(100.0)
+    rx = proto.mk_base(server=True, clock=clock)
+    tx = proto.mk_base(server=False, clock=clock)
+    cur = symint('cur', 1, MAXSEQ)
+    bits = symbv('bits', 32)
+    rx.bitfield_pkt.current_seqnum = SeqNum(cur)
+    rx.bitfield_pkt.bits = bits
+    d = symint('d', -32767, 32)
+    x = SeqNum(cur) + (-d)
+    tx.seq_sending = x - 1
+    tx.send(b'm', conn.RetryMode.NONE, None)
+    pkt = tx._build_packet_impl(100.0, False, 0.1)
+    raw = tx._encode_packet(pkt)
+    hdr = conn.PacketHeader.from_bytes(True, raw)
+    if bool(d < 0):
+        seen = False
+    elif bool(d == 0):
+        seen = True
+    else:
+        seen = SxBool(bit(bits, 32 - core.concrete(d, cap=40), 32))
+    ok = rx._recv_datagram(hdr, raw)
+    check(core.Iff(ok is True, Not(seen)), 'a genuine datagram inside the window is accepted exactly when it was not received before')
+    if ok is True:
+        check(rx.bitfield_pkt.contains(x), 'an accepted datagram is recorded in the window')
+        newest = SeqNum(cur) + SxInt.wrap(z3.If(core.int_term(d) < 0, -core.int_term(d), 0))
+        check(rx.bitfield_pkt.current_seqnum == newest, 'the ack number is the newest datagram received')
+
+
+def replay_l86(cfg, m):
+    c = real('mpgameserver.connection')
+    cur, bits, d = m['cur'], m['bits'], m['d']
+    now = [100.0]
+    tx = c.ConnectionBase(False, ('p', 1))
+    rx = c.ConnectionBase(True, ('p', 1))
+    for z in (tx, rx):
+        z.status = c.ConnectionStatus.CONNECTED
+        z.session_key_bytes = b'K' * 16
+        z.clock = lambda: now[0]
+    # reach the window through the API: deliver the members oldest first, then cur
+    seqs = [int(c.SeqNum(cur) + (-e_)) for e_ in range(32, 0, -1) if (bits >> (32 - e_)) & 1] + [cur]
+
+    def ship(seqn):
+        tx.seq_sending = c.SeqNum(seqn) - 1
+        tx.send(b'm')
+        pkt = tx._build_packet_impl(now[0], False, 0.1)
+        raw = tx._encode_packet(pkt)
+        return rx._recv_datagram(c.PacketHeader.from_bytes(True, raw), raw)
+    for s_ in seqs:
+        ship(s_)
+    if rx.bitfield_pkt.bits != bits or rx.bitfield_pkt.current_seqnum != cur:
+        return False, 'window state not reached through the API'
+    x = int(c.SeqNum(cur) + (-d))
+    seen = x in seqs
+    ok = ship(x)
+    return (ok is True) != (not seen), 'cur=%d bits=%08x d=%d: accepted=%s, received before=%s' % (cur, bits, d, ok, seen)
+
+
+R.add('L8.6', l86, [{}], replay=replay_l86,
+      desc='_recv_datagram gate: genuine datagram at offset -32767..32 from an arbitrary window: accepted <=> not received before',
+      expect=['a genuine datagram inside the window is accepted exactly when it was not received before'])
+
 get_harness = R.get_harness
